@@ -68,7 +68,9 @@ class BaseMove(Generic[OperationType, ContextType]):
         self, operation: OperationType | None, apply_constraints: bool = True
     ) -> None:
         """Initialize the `BaseMove` object."""
-        self.operation: OperationType = operation or self.default_operation
+        self.operation: OperationType = (
+            operation if operation is not None else self.default_operation
+        )
         self.apply_constraints: bool = apply_constraints
 
         self.composite_move_type: type[CompositeMove] = CompositeMove[
